@@ -1,4 +1,4 @@
-import TextxVerif.Proofs.GramLoad
+import TextxVerif.Proofs.GramLoadClass
 /-!
 # C23 — invalid grammars are always reported as textX errors
 
@@ -29,7 +29,11 @@ theorem C23_total (env : Env) (g : Grammar) (h : Stm.imp ∉ g.stms) :
   unfold compile at he
   rcases bind_err.mp he with h1 | ⟨st, hst, h2⟩
   · exact firstPass_tx g h e h1
-  · exact secondPass_tx env (firstPass_inv hst) e h2
+  · rcases bind_err.mp h2 with h3 | ⟨hc, _, h4⟩
+    · obtain ⟨b, hb⟩ := commentsModel_ok env st
+      rw [hb] at h3
+      cases h3
+    · exact secondPass_tx env (firstPass_inv hst) hc e h4
 
 /-- the only non-textX exception is the documented one: the assertion of
 `_new_import`, and only for a grammar with an `import` statement -/
@@ -72,9 +76,12 @@ theorem C23_any_order (env : Env) (g : Grammar) (h : Stm.imp ∉ g.stms) :
   | ok st =>
       rw [hfp] at ho
       have hok := firstPass_inv hfp
-      have ho' : Except.error e ∈ outcomes2 env st := ho
+      obtain ⟨hc, hhc⟩ := commentsModel_ok env st
+      have ho' : Except.error e ∈ outcomes2 env st hc := by
+        simp only [hhc] at ho
+        exact ho
       unfold outcomes2 at ho'
-      rw [stage3_ok hok] at ho'
+      rw [refreshComments_ok, stage3_ok hok] at ho'
       rcases mem_errsOr ho' with h1 | ⟨e', he', heq⟩
       · rcases mem_errsOr h1 with h2 | ⟨e', he', heq⟩
         · have h3 := List.mem_singleton.mp h2
@@ -91,14 +98,24 @@ theorem C23_compile_in_outcomes (env : Env) (g : Grammar) : compile env g ∈ ou
   | error e => exact List.mem_singleton.mpr rfl
   | ok st =>
       rw [ok_bind]
-      show secondPass env st ∈ outcomes2 env st
+      obtain ⟨hc, hhc⟩ := commentsModel_ok env st
+      show (commentsModel env st >>= fun hc => secondPass env st hc) ∈
+        (match commentsModel env st with
+         | .error e => [Except.error e]
+         | .ok hc => outcomes2 env st hc)
+      rw [hhc, ok_bind]
+      show secondPass env st hc ∈ outcomes2 env st hc
       unfold secondPass outcomes2
       cases h2 : stage2 env st with
       | error e =>
           rw [error_bind]
           exact mem_errsOr_of_mem (stage2_err h2)
       | ok u =>
-          rw [ok_bind, errsOr_nil (stage2_okc h2)]
+          rw [ok_bind, errsOr_nil (stage2_okc h2), refreshComments_ok, ok_bind]
+          show (stage3 st >>= fun _ => stage4 env st) ∈
+            (match stage3 st with
+             | .error e => [Except.error e]
+             | .ok _ => errsOr (candidates4 env st) [Except.ok ()])
           cases h3 : stage3 st with
           | error e =>
               rw [error_bind]
@@ -119,6 +136,19 @@ theorem C23_alias_fuel (env : Env) (st : St) (name : String) :
   intro h
   have := resolveCross_top_tx env st name _ h
   cases this
+
+/-- the fuel is immaterial: with *any* larger stack the walk along the aliases gives the
+same result as with `len(namespace) + 1` — the outcome the model computes is the outcome of
+the unbounded recursion of `_resolve_rule`, not an artefact of the bound -/
+theorem C23_alias_fuel_irrelevant (env : Env) (st : St) (name : String) (k : Nat) :
+    resolveCross env st (st.ns.length + 1 + k) [] name = resolveCross env st (st.ns.length + 1) [] name :=
+  resolveCross_stable env st _ [] name (C23_alias_fuel env st name) k
+
+/-- `A: B; B: C; C: 'x';` with a stack of 1000 frames: as with 4 -/
+example (env : Env) : resolveCross env
+    { ns := [{ name := "A", attrs := [], peg := .cross "B" false }, { name := "B", attrs := [], peg := .cross "C" false },
+             { name := "C", attrs := [], peg := mkMatch }], refs := [], top := .cross "B" false } 1000 [] "A" = .ok () := by
+  rfl
 
 /-- a text the grammar parser rejects is reported as `TextXSyntaxError` -/
 theorem C23_parse_failure : parseFailed = .error .syntax := rfl
@@ -190,6 +220,127 @@ theorem C23_start_only_alias_false (env : Env) :
 
 /-- the repaired code reports the same grammar: the chain `[A, B, C]` meets `B` again -/
 example (env : Env) : resolveCross env rhoAlias (rhoAlias.ns.length + 1) [] "A" = .error .semantic := rfl
+
+/-! ## the comments model (fix f957bf6: refreshed after the rule references are resolved) -/
+
+/-- `"Comment" in metamodel` and `metamodel["Comment"]._tx_peg_rule` — in `visit_textx_model`
+and again in `second_textx_model` — never fail, whatever the namespace and the referenced
+languages are: the name has no dot, so no language is consulted and a missing class is the
+`KeyError` that `__contains__` turns into `False` -/
+theorem C23_comments_model_total (env : Env) (st : St) (hc : Bool) :
+    (∃ b, commentsModel env st = .ok b) ∧ refreshComments env st hc = .ok () :=
+  ⟨commentsModel_ok env st, refreshComments_ok env st hc⟩
+
+/-! ## which error classes: the two classes the property statement does not name -/
+
+/-- every possible outcome (any order of the second pass): a `TextXRegistrationError`
+needs a `reference` statement naming a language that is not registered, a plain
+`TextXError` needs a rule parameter written without the string value it needs (`ws`, `nows`,
+`split`, `nosplit` without a value, `split=''`) -/
+theorem C23_classified (env : Env) (g : Grammar) : ∀ o, o ∈ outcomes env g →
+    (o = .error .registration → g.hasUnregistered env = true) ∧
+    (o = .error .txerror → g.hasBadParam = true) :=
+  outcomes_classified env g
+
+/-- the registration error, spelled out on the parse tree -/
+theorem C23_registration_needs_unregistered (env : Env) (g : Grammar)
+    (h : compile env g = .error .registration) :
+    ∃ l a, Stm.reference l a ∈ g.stms ∧ env.langs l = none := by
+  have hu := (C23_classified env g _ (C23_compile_in_outcomes env g)).1 h
+  unfold Grammar.hasUnregistered at hu
+  rw [List.any_eq_true] at hu
+  obtain ⟨s, hs, hv⟩ := hu
+  cases s with
+  | imp => cases hv
+  | reference l a => exact ⟨l, a, hs, by simpa using hv⟩
+
+/-- without `reference` statements there is no registration error (the reviewer's
+statement; a corollary of `C23_registration_needs_unregistered`) -/
+theorem C23_registration_only_reference (env : Env) (g : Grammar)
+    (h : ∀ l a, Stm.reference l a ∉ g.stms) : compile env g ≠ .error .registration := by
+  intro hc
+  obtain ⟨l, a, hm, _⟩ := C23_registration_needs_unregistered env g hc
+  exact h l a hm
+
+/-- the plain `TextXError`, spelled out on the parse tree -/
+theorem C23_txerror_needs_bad_param (env : Env) (g : Grammar) (h : compile env g = .error .txerror) :
+    ∃ r, r ∈ g.first :: g.rest ∧ ∃ ps, r.params = some ps ∧ ∃ p, p ∈ ps ∧ badParamValue p = true := by
+  have hb := (C23_classified env g _ (C23_compile_in_outcomes env g)).2 h
+  unfold Grammar.hasBadParam at hb
+  rw [List.any_eq_true] at hb
+  obtain ⟨r, hr, hv⟩ := hb
+  refine ⟨r, hr, ?_⟩
+  unfold Rule.hasBadParam at hv
+  cases hps : r.params with
+  | none => rw [hps] at hv; cases hv
+  | some ps =>
+      rw [hps] at hv
+      exact ⟨ps, rfl, List.any_eq_true.mp hv⟩
+
+/-- the condition is about the grammar text; it is exactly the condition on the value
+`visit_rule_param` hands to `visit_rule_params` (a bool for `ws` / `split`, or an empty
+string for `split`) -/
+theorem C23_bad_param_value_spec (p : String × Option String) :
+    badPVal (visitParam p) = badParamValue p := badPVal_visitParam p
+
+/-- sufficiency in the simplest position: no `import`, the first rule has a legal name and
+its first parameter lacks its string value ⇒ `TextXError` -/
+theorem C23_txerror_first_param (env : Env) (g : Grammar) (hi : Stm.imp ∉ g.stms)
+    (hn : isAsgnName g.first.name = false) (p : String × Option String)
+    (ps : List (String × Option String)) (hp : g.first.params = some (p :: ps))
+    (hb : badParamValue p = true) : compile env g = .error .txerror := by
+  unfold compile
+  rw [firstPass_bad_first_param hi hn hp hb, error_bind]
+
+/-- **the classes the statement names**: no `import`, every referenced language
+registered, no rule parameter without its value ⇒ every possible outcome is a meta-model,
+a `TextXSyntaxError` or a `TextXSemanticError` -/
+theorem C23_named_classes (env : Env) (g : Grammar) (hi : Stm.imp ∉ g.stms)
+    (hr : g.hasUnregistered env = false) (hp : g.hasBadParam = false) :
+    ∀ o, o ∈ outcomes env g → o = .ok () ∨ o = .error .syntax ∨ o = .error .semantic := by
+  intro o ho
+  have hcl := C23_classified env g o ho
+  cases o with
+  | ok u => exact Or.inl rfl
+  | error e =>
+      have htx := C23_any_order env g hi _ ho e rfl
+      cases e with
+      | py p => cases htx
+      | registration => rw [hcl.1 rfl] at hr; cases hr
+      | txerror => rw [hcl.2 rfl] at hp; cases hp
+      | «syntax» => exact Or.inr (Or.inl rfl)
+      | semantic => exact Or.inr (Or.inr rfl)
+
+/-- the same for the outcome in namespace order -/
+theorem C23_named_classes_compile (env : Env) (g : Grammar) (hi : Stm.imp ∉ g.stms)
+    (hr : g.hasUnregistered env = false) (hp : g.hasBadParam = false) :
+    compile env g = .ok () ∨ compile env g = .error .syntax ∨ compile env g = .error .semantic :=
+  C23_named_classes env g hi hr hp _ (C23_compile_in_outcomes env g)
+
+/-! ## the handlers are Python's `try … except H` with the class the code names -/
+
+/-- `visit_str_match` is `try: decode_escapes(..) except ValueError`, `visit_re_match`
+`try: regex.compile() except Exception`, `__contains__` `try: self[name] except KeyError`,
+`_resolve_cls` `try: metamodel[cls_name] except KeyError`, and the seeded variant C23-2
+`except re.error` — with `tryExcept` and the subclass table `PyExc.isa` (compared with
+`issubclass` of the running interpreter by the check).  `C23_regex_any_exception` and
+`C23_narrow_handler_false` are what these handlers do with the classes of the table. -/
+theorem C23_handlers_spec :
+    (∀ ok, visitLit (.str ok) = tryExcept (decodeEscapes ok) .valueError (throw .syntax)) ∧
+    (∀ r, visitLit (.re r) = tryExcept (reCompile r) .exception (throw .syntax)) ∧
+    (∀ env st name, contains env st name =
+        tryExcept (getitem env st name >>= fun _ => pure true) .keyError (pure false)) ∧
+    (∀ env st a, resolveAttr env st a =
+        tryExcept (getitem env st a.clsName >>= fun _ => pure ()) .keyError (throw .semantic)) ∧
+    (∀ r, visitReNarrow r = tryExcept (reCompile r) .reError (throw .syntax)) :=
+  ⟨visitLit_str_spec, visitLit_re_spec, contains_spec, resolveAttr_spec, visitReNarrow_spec⟩
+
+/-- every class of the table is an `Exception`; a handler for `Exception` therefore turns
+whatever `body` raises into the handler's outcome -/
+theorem C23_except_exception_catches_all {α : Type} (body handler : M α) (e : Exc)
+    (h : body = .error e) : tryExcept body .exception handler = handler := by
+  subst h
+  cases e <;> first | rfl | (rename_i p; cases p <;> rfl)
 
 /-! ## non-vacuity: the model distinguishes the outcome classes on concrete grammars -/
 
@@ -264,5 +415,64 @@ example : outcomes noLangs
 /-- `import x  A: 'a';` is the documented exception -/
 example : compile noLangs { stms := [.imp], first := ⟨"A", none, seq1 (lit "a")⟩, rest := [] }
     = .error (.py .assertionError) := by rfl
+
+/-! ## non-vacuity of the classification theorems -/
+
+def oneLang : Env := { langs := fun n => if n == "foo" then some ["B"] else none }
+
+/-- `reference foo  A: a=[foo.B];` with `foo` unregistered: the condition of
+`C23_classified` holds and the outcome is the registration error -/
+example : Grammar.hasUnregistered noLangs
+    { stms := [.reference "foo" none], first := ⟨"A", none, seq1 (asgn "a" .eq (.obj "foo.B" none false))⟩, rest := [] }
+    = true := by rfl
+
+/-- the same grammar with `foo` registered (class `B`): hypotheses of `C23_named_classes`
+hold (with a `reference` statement present), the grammar loads; with the unknown class
+`foo.C` it is a semantic error -/
+example : Grammar.hasUnregistered oneLang
+    { stms := [.reference "foo" none], first := ⟨"A", none, seq1 (asgn "a" .eq (.obj "foo.B" none false))⟩, rest := [] }
+    = false := by rfl
+example : compile oneLang
+    { stms := [.reference "foo" none], first := ⟨"A", none, seq1 (asgn "a" .eq (.obj "foo.B" none false))⟩, rest := [] }
+    = .ok () := by rfl
+example : compile oneLang
+    { stms := [.reference "foo" none], first := ⟨"A", none, seq1 (asgn "a" .eq (.obj "foo.C" none false))⟩, rest := [] }
+    = .error .semantic := by rfl
+
+/-- an unregistered language that no name uses does no harm: the condition is necessary, not sufficient -/
+example : compile noLangs
+    { stms := [.reference "foo" none], first := ⟨"A", none, seq1 (lit "a")⟩, rest := [] } = .ok () := by rfl
+
+/-- `A[nosplit]: 'a';`, `A[split='']: 'a';` (hypotheses of `C23_txerror_first_param`) -/
+example : badParamValue ("nosplit", none) = true ∧ badParamValue ("split", some "") = true ∧
+    badParamValue ("nows", none) = true ∧ badParamValue ("ws", some " ") = false ∧
+    badParamValue ("noskipws", none) = false ∧ isAsgnName "A" = false := by decide
+example : compile noLangs { stms := [], first := ⟨"A", some [("split", some "")], seq1 (lit "a")⟩, rest := [] }
+    = .error .txerror := by rfl
+example : Grammar.hasBadParam { stms := [], first := ⟨"A", some [("split", some "")], seq1 (lit "a")⟩, rest := [] }
+    = true := by rfl
+
+/-- `A[foo, ws]: 'a';`: a parameter without its value behind an unknown parameter — the
+syntax error comes first (`hasBadParam` is necessary, not sufficient) -/
+example : compile noLangs { stms := [], first := ⟨"A", some [("foo", none), ("ws", none)], seq1 (lit "a")⟩, rest := [] }
+    = .error .syntax := by rfl
+
+/-- hypotheses of `C23_named_classes` on a grammar with rule parameters -/
+example : Grammar.hasBadParam
+    { stms := [], first := ⟨"A", some [("noskipws", none), ("ws", some " ")], seq1 (lit "a")⟩, rest := [] } = false := by rfl
+
+/-- `Model: 'a'; Comment: Line; Line: /x/;` (the comments model is a reference that the
+second pass resolves) loads; `Comment: Nope;` is a semantic error -/
+example : compile noLangs
+    { stms := [], first := ⟨"Model", none, seq1 (lit "a")⟩,
+      rest := [⟨"Comment", none, seq1 (ref "Line")⟩, ⟨"Line", none, seq1 (.mk (.lit none (.re none)) none false)⟩] }
+    = .ok () := by rfl
+example : compile noLangs
+    { stms := [], first := ⟨"Model", none, seq1 (lit "a")⟩, rest := [⟨"Comment", none, seq1 (ref "Nope")⟩] }
+    = .error .semantic := by rfl
+
+/-- the subclass table: `UnicodeDecodeError` is a `ValueError`, `OverflowError` is not a `re.error` -/
+example : PyExc.isa .unicodeDecodeError .valueError = true ∧ PyExc.isa .overflowError .reError = false ∧
+    PyExc.isa .recursionError .exception = true ∧ PyExc.isa .keyError .valueError = false := by decide
 
 end GramLoad
